@@ -198,7 +198,7 @@ EXPORT errno_t _wcstombs_s_chk(size_t *restrict retvalp, char *restrict dest,
     /* l is the strlen, excluding NULL */
     l = *retvalp = wcstombs(dest, src, len);
 
-    if (likely(l > 0 && (rsize_t)l < dmax)) {
+    if (likely((rsize_t)l < dmax)) { /* an empty src converts to an empty dest */
         if (dest) {
 #ifdef SAFECLIB_STR_NULL_SLACK
             memset(&dest[l], 0, dmax - l);
